@@ -42,14 +42,14 @@ CONSTANTS Clients, Services, Supported, Base, S, MaxFrames, Threaded, LevelsUsed
           FullMatrix          \* token and notify requests too (they leave the data path alone)
 
 VARIABLES conn, req, granted, open, devsrv, queue, nfree, cur, frame, sock, tmp, rdp, owed,           \* ProxyQueue
-          order, cst, prio, valid, tok, svc, holders, up, rd, wr,                                      \* ProxyConn
+          order, cst, prio, valid, tok, svc, nsi, holders, up, rd, wr,                                      \* ProxyConn
           actor               \* ghost: the client that caused the last step (0: the daemon, the capture clock, a reader)
 
 Q == INSTANCE ProxyQueue
 C == INSTANCE ProxyConn
 
 qvars == <<conn, req, granted, open, devsrv, queue, nfree, cur, frame, sock, tmp, rdp, owed>>
-cvars == <<order, cst, prio, valid, tok, svc, holders, up, rd, wr>>
+cvars == <<order, cst, prio, valid, tok, svc, nsi, holders, up, rd, wr>>
 fview == <<qvars, cvars>>             \* VIEW: the ghost is not part of the state
 fvars == <<qvars, cvars, actor>>
 
@@ -59,7 +59,7 @@ FInit == Q!Init /\ C!CInit /\ actor = 0
 (* client steps *)
 
 FAccept(c) == Q!Accept(c) /\ C!CAccept(c)
-FConnect(c, sv, l) == Q!Connect(c, sv, l) /\ C!MConnect(c, granted'[c] # {})
+FConnect(c, sv, l) == Q!Connect(c, sv, l) /\ C!MConnect(c, granted'[c] # {}, FALSE)
 \* services requested of which the device supports none: CONNECT_REJ, connection closed
 FConnectRej(c) == Q!ConnectRej(c) /\ C!MConnectRej(c)
 FServiceReq(c, sv, l, rs, dc) == Q!ServiceReq(c, sv, l, rs, dc) /\ C!MServiceReq(c, granted'[c] # {})
